@@ -145,7 +145,11 @@ def _timer_contract(vc, has_interval, has_idle, sharp_values):
     class StateCls:
         @staticmethod
         def from_scratch():
-            return Opaque('blank', with_handlers=lambda hs: (vc.emit('fresh_state', hs), StubState(vc, 'fresh'))[1])
+            def with_handlers(hs):
+                st = StubState(vc, 'fresh')
+                vc.emit('fresh_state', hs, st)
+                return st
+            return Opaque('blank', with_handlers=with_handlers)
 
     async def execute_handlers_once(**kw):
         # ---- a run starts here: the schedule laws are obligations on this very moment
@@ -163,6 +167,12 @@ def _timer_contract(vc, has_interval, has_idle, sharp_values):
         if G.prev_state is not None:
             vc.ensure('state_threaded', Implies(Not(G.prev_state.done), st is G.prev_state))
             vc.ensure('state_threaded', Implies(G.prev_state.done, st is not G.prev_state))
+            # ... and the run after a finished one starts with a state made from scratch FOR this run: its `started`
+            # (HandlerState.from_scratch stamps now) is what the handler's timeout and runtime are counted from (X1); a blank
+            # state made once for the whole timer counts the age of the timer TASK instead (seeded C10-11: past `timeout`
+            # every later run ends in HandlerTimeoutError before the function is called)
+            fresh_now = [e[2] for e in vc.trace[getattr(G, 'round_mark', 0):] if e and e[0] == 'fresh_state']
+            vc.ensure('state_threaded', Implies(G.prev_state.done, any(st is f for f in fresh_now)))
         vc.canary('canary.never_runs', False)
         G.running = True
         G.run_start = clock.now
@@ -217,6 +227,7 @@ def _timer_contract(vc, has_interval, has_idle, sharp_values):
         G.run_start = G.run_end = None
         G.susp = 0
         G.runs = 0
+        G.round_mark = len(vc.trace)
         new_patches.clear()
         cause.patch = Opaque('patch-carried')
         # re-bind only what is bound at the loop head (a deleted initialisation must not be masked by the havoc)
